@@ -53,6 +53,15 @@ impl Select for VirtualSystem {
         let signal_mask = signal_mask.map(|mask| mask.iter().copied().collect::<Vec<_>>());
         #[allow(clippy::await_holding_refcell_ref, reason = "false positive")]
         async move {
+            #[cfg(feature = "verif-hooks")]
+            let signal_mask = if timeout != Some(Duration::ZERO)
+                && super::sim_hook::preempt_requested(this.process_id)
+            {
+                None
+            } else {
+                signal_mask
+            };
+
             let (old_mask, old_caught_signals, deadline) = {
                 let state = &mut *this.state.borrow_mut();
                 let proc = state
